@@ -133,6 +133,9 @@ func (h *H) obs(label, v string) {
 	if n > 0 {
 		label = fmt.Sprintf("%s~%d", label, n+1)
 	}
+	if len(v) > 1<<20 {
+		v = v[:1<<20] + "...(truncated)" // a runaway native run must not flood the driver
+	}
 	h.Observed[label] = v
 }
 
